@@ -271,6 +271,10 @@ def shrink_episode(ep, want, workdir, budget=400):
 def write_replay(prop, seed, kind, what, ep=None, extra=None, raw_lines=None):
     os.makedirs(REPLAYS, exist_ok=True)
     path = os.path.join(REPLAYS, f"{prop}-{seed}-{kind}.txt")
+    n = 1
+    while os.path.exists(path) and (time.time() - os.path.getmtime(path)) < 600:
+        n += 1
+        path = os.path.join(REPLAYS, f"{prop}-{seed}-{kind}-{n}.txt")
     with open(path, "w") as f:
         f.write(f"# property={prop} kind={kind}\n")
         for l in what.splitlines():
@@ -643,6 +647,10 @@ def replay(prop, path):
     body = [l for l in text.splitlines() if l.strip() and not l.startswith("#")]
     if body and body[0].startswith("E|"):
         return replay_macro(prop, full)
+    if body and body[0].startswith("P|"):
+        return replay_sched(prop, full)
+    if body and body[0][:2] in ("M|", "K|", "A|", "R|", "T|"):
+        print("one-line case of a `lines` stream; re-run it through the driver mode named in the registry")
     eps = parse_episodes(text)
     if not eps:
         print("replay file names a broken obligation/correspondence, no concrete input to run")
@@ -666,6 +674,37 @@ def replay(prop, path):
 def run_macro_stream(prop, stream, tier, seed, workdir, scale=1):
     import macro_stream
     return macro_stream.run_macro_stream(prop, stream, tier, seed, workdir, scale)
+
+
+def replay_sched(prop, full):
+    import sched_stream, macro_stream
+    spec = PROPS[prop]
+    ok, out, _ = lake_build(["driver"])
+    ok2, msg, _ = build_harness()
+    if not (ok and ok2):
+        print("cannot build:", msg or out[-500:]); return 2
+    p = subprocess.run([os.path.join(BIN, "sched"), "replay", full], stdout=subprocess.PIPE, stderr=subprocess.PIPE, env=ENV, text=True, timeout=120)
+    _, sp = macro_stream.specs()
+    sites = sched_stream.load_sites()
+    fails = []
+    cur = x = v = None
+    for line in p.stdout.splitlines():
+        if not line.startswith("F|"):
+            print(line[:600])
+        if line.startswith("P|"):
+            _, fl, pt = line.split("|", 2)
+            cur = sched_stream.RunAnalysis(sp, sites, [int(i) for i in fl.split(",")], [q.split(";") for q in pt.split("||")])
+        elif line.startswith("X|"):
+            x = line
+        elif line.startswith("V|"):
+            v = line
+            if "result=ok" not in x:
+                cur.analyse(x, v, None, lambda pid, m, rp: fails.append((pid, m)), [], lambda e: None)
+        elif line.startswith("Q|"):
+            cur.analyse(x, v, line, lambda pid, m, rp: fails.append((pid, m)), [], lambda e: None)
+    for pid, m in fails:
+        print("MON", pid, "::", m)
+    return 1 if [f for f in fails if f[0] in spec["monitors"]] else 0
 
 
 def replay_macro(prop, full):
